@@ -889,6 +889,10 @@ func (dimension *ArrayDimension) UnmarshalYAML(value *yaml.Node) error {
 }
 
 func (enum *EnumDefinition) UnmarshalYAML(value *yaml.Node) error {
+	if value.Kind != yaml.MappingNode && len(value.Content) > 0 {
+		return parseError(value, "an !enum or !flags must be specified as a mapping with `values` and optionally `base`")
+	}
+
 	for i := 0; i < len(value.Content); i += 2 {
 		k := value.Content[i]
 		v := value.Content[i+1]
